@@ -98,6 +98,8 @@ type Stats struct {
 type Pool struct {
 	mu       sync.Mutex
 	cond     *sync.Cond
+	deadline time.Time // wall-clock budget of this harness (zero: none)
+	timedOut bool
 	stacks   [][]workItem
 	active   int
 	paths    int
@@ -129,6 +131,13 @@ func (p *Pool) pop(w int) (workItem, bool) {
 		pending := 0
 		for _, s := range p.stacks {
 			pending += len(s)
+		}
+		if !p.deadline.IsZero() && time.Now().After(p.deadline) {
+			if pending > 0 {
+				p.timedOut = true
+			}
+			p.cond.Broadcast()
+			return workItem{}, false
 		}
 		if p.maxPaths > 0 && p.paths >= p.maxPaths {
 			if pending > 0 {
